@@ -164,6 +164,9 @@ def load_stl_ascii(file_obj):
 
     # collect the keyword arguments for the Trimesh constructor
     kwargs = {}
+    # how many times each name was seen so that finding a unique
+    # name for many solids with the same name stays linear
+    counts = {}
 
     # keep track of our position in the file
     position = 0
@@ -228,7 +231,7 @@ def load_stl_ascii(file_obj):
             name = None
 
         # make sure geometry has a unique name for the scene
-        name = util.unique_name(name, kwargs)
+        name = util.unique_name(name, kwargs, counts=counts)
         # save the constructor arguments
         kwargs[name] = {
             "vertices": vertices.reshape((-1, 3)),
